@@ -22,13 +22,31 @@ func curatedCases(names ...string) []*pipeline.Case {
 	return out
 }
 
+
+const latticeRule = "cases = curated corpus (every construct of D) + seeded random descriptors; per selected type N struct values drawn from the state lattice (modes zero/mixed/sparse/dense/boundary); distinct = distinct (case, type, shape signature) triples, the signature being the vector of lattice states (nil/empty/len, pointer nil-ness, active oneof branch, embed state) along the spec tree; "
+
+// stdL2 is the common flow of the value-driven L2 properties.
+func stdL2(prop string, quickRandom, thoroughRandom int) func(r *Run) {
+	return func(r *Run) {
+		cases := curatedCases()
+		for _, e := range descgen.Exotic() {
+			cases = append(cases, caseFrom(e))
+		}
+		cases = append(cases, randomCases(r, r.pick(quickRandom, thoroughRandom))...)
+		r.generate(cases)
+		r.compile(cases)
+		r.drive(prop, cases, 0)
+	}
+}
+
 func init() {
 	register(&Property{ID: "C03", Level: "exploration",
-		Rule: "cases = curated corpus (every construct of D) + seeded random descriptors; per selected type N struct values drawn from the state lattice (modes zero/mixed/sparse/dense/boundary); one evaluation = one CopyTo into an empty schema-typed object followed by the conformance walk and the framework acceptance checks; distinct = distinct (case, type, shape signature) triples, the signature being the vector of lattice states (nil/empty/len, pointer nil-ness, active oneof branch, embed state) along the spec tree",
-		Check: func(r *Run) {
-			cases := curatedCases()
-			r.generate(cases)
-			r.compile(cases)
-			r.drive("C03", cases, 0)
-		}})
+		Rule:  latticeRule + "one evaluation = one CopyTo into an empty schema-typed object followed by the conformance walk (presence, value type, schema type, no unknown, recursively) and the framework acceptance checks (ToTerraformValue type, ValueFromTerraform, tfsdk.State.Set)",
+		Check: stdL2("C03", 8, 150)})
+	register(&Property{ID: "C04", Level: "exploration",
+		Rule:  latticeRule + "one evaluation = CopyTo into an empty object, CopyFrom into a fresh struct, comparison of both structs in the documented normal form",
+		Check: stdL2("C04", 8, 150)})
+	register(&Property{ID: "C20", Level: "exploration",
+		Rule:  latticeRule + "one evaluation = one CopyTo into an empty object followed by the null-ness walk over every non-element attribute (counter judged-attributes)",
+		Check: stdL2("C20", 8, 150)})
 }
